@@ -86,6 +86,8 @@ type Behaviour struct {
 	Name        string
 	Status      int     // 0 = 200
 	Drop        string  // "" | "before" | "after"
+	// Delay: the provider takes this long to answer a token request (the world's clock moves while the check waits)
+	Delay time.Duration
 	RawBody     *string // verbatim body (grant still processed)
 	NoExpiresIn bool
 	ExpiresIn   int // default 3600
@@ -138,6 +140,8 @@ type IdP struct {
 	FullMetadata bool
 	// AtHash: ID tokens carry at_hash, the hash of the access token issued WITH them (OIDC Core 3.1.3.6)
 	AtHash bool
+	// Sleep lets time pass (set by the world to its clock): a provider that answers slowly
+	Sleep func(time.Duration)
 	// CallbackExtras is the number of further parameters the provider adds to the authorization response (0-12)
 	CallbackExtras int
 	// BigTokens, when positive, makes ID tokens (a groups claim) and access tokens about that many bytes longer
@@ -532,6 +536,9 @@ func (p *IdP) process(call *TokenCall, beh *Behaviour) (int, string) {
 		call.NewRefresh = rt
 	}
 
+	if beh.Delay > 0 && p.Sleep != nil {
+		p.Sleep(beh.Delay)
+	}
 	if beh.Status != 0 && beh.Status != 200 {
 		b, _ := json.Marshal(map[string]any{"error": "server_error"})
 		return beh.Status, string(b)
